@@ -48,6 +48,17 @@ NewSrc(n) ==
   /\ UNCHANGED <<wrapped, sink>>
   /\ last' = L("ok", 0)
 
+(* the source is not a fused iterator: it polls a queue, reports the end when the queue is empty, and yields again   *)
+(* after the producer has pushed more (a channel's try_iter, iter::from_fn over shared state).  Refilling is the     *)
+(* producer's step; it may happen while a CIterator borrows the source, also after that wrapper has reported the end *)
+Refill(n) ==
+  /\ hasSrc /\ n > 0
+  /\ nextId + n - 1 <= MaxId
+  /\ src' = src \o [k \in 1..n |-> nextId + k - 1]
+  /\ nextId' = nextId + n
+  /\ UNCHANGED <<hasSrc, wrapped, sink, drops>>
+  /\ last' = L("ok", 0)
+
 (* a new callback target; the old one (and the items it collected) is dropped *)
 NewSink(kind, stop) ==
   /\ kind \in {"closure", "vec", "extend"}
@@ -127,6 +138,7 @@ FeedWrapped ==
 
 Do(e) ==
   \/ e.op = "NewSrc"      /\ NewSrc(e.n)
+  \/ e.op = "Refill"      /\ Refill(e.n)
   \/ e.op = "NewSink"     /\ NewSink(e.kind, e.stop)
   \/ e.op = "Feed"        /\ Feed(e.via)
   \/ e.op = "FeedRef"     /\ FeedRef(e.via)
